@@ -454,3 +454,67 @@ Definition query_spec (file : list Z) (server : range -> option response) (range
 
 (* one query of a session: its ranges, the server as it answers during this query, what the strategy run it starts yields *)
 Record squery := mkQ { q_ranges : list range; q_server : range -> option response; q_fetch : list range -> outcome }.
+
+(* ------------------------------------------------------------------------------------------------ the transport under a range request *)
+(* HttpRangeStream.session = requests_retry_session(): a requests.Session whose adapter (requests.adapters.HTTPAdapter) retries with
+   urllib3.util.Retry(total, connect, read, status_forcelist) - Gen/GenFetch.v: gen_retry, extracted from requests_retry_session.
+   One range request = up to 1 + total ATTEMPTS at the connection level.  An attempt is answered by a response; or the connection
+   is refused (a connect error); or it is dropped before any response arrives (a read error); or the response head arrives and the
+   connection breaks while the body is read (the body is read by requests AFTER the adapter has returned: never retried).
+   urllib3.util.Retry.increment: a failed attempt takes one from `total` and one from the counter of its kind; the request is
+   given up when a counter would become negative; a response whose status is in status_forcelist counts as a failed attempt
+   (of `total` only). *)
+Inductive answer := ARefused | ADropped | ACut | AResp (r : response).
+(* what the adapter's send yields: a response / it raises, retries exhausted / a response whose body cannot be read *)
+Inductive tres := TResp (r : response) | TExhausted | TCut.
+Definition forced (sts : list Z) (st : Z) : bool := existsb (Z.eqb st) sts.
+Definition retryable (sts : list Z) (a : answer) : bool :=
+  match a with ARefused | ADropped => true | ACut => false | AResp r => forced sts (r_status r) end.
+Definition final (a : answer) : tres := match a with AResp r => TResp r | ACut => TCut | _ => TExhausted end.
+
+(* attempts k, k+1, ... of one request against `net` (attempt index -> answer); result and the number of attempts made *)
+Fixpoint send_retry (sts : list Z) (total connect read : nat) (net : nat -> answer) (k : nat) : tres * nat :=
+  match net k with
+  | AResp r => if forced sts (r_status r)
+               then match total with O => (TExhausted, S k) | S t => send_retry sts t connect read net (S k) end
+               else (TResp r, S k)
+  | ACut => (TCut, S k)
+  | ARefused => match total with
+                | O => (TExhausted, S k)
+                | S t => match connect with O => (TExhausted, S k) | S c => send_retry sts t c read net (S k) end
+                end
+  | ADropped => match total with
+                | O => (TExhausted, S k)
+                | S t => match read with O => (TExhausted, S k) | S c => send_retry sts t connect c net (S k) end
+                end
+  end.
+
+Definition send_cfg (cfg : retry_cfg) (net : nat -> answer) : tres * nat :=
+  send_retry (rt_statuses cfg) (rt_total cfg) (rt_connect cfg) (rt_read cfg) net 0.
+
+(* the server as HttpRangeStream.read sees it through the session: `None` = session.get raises *)
+Definition via_retry (cfg : retry_cfg) (net : range -> nat -> answer) : range -> option response :=
+  fun r => match fst (send_cfg cfg (net r)) with TResp x => Some x | _ => None end.
+
+(* ------------------------------------------------------------------------------------------------ what the transport keeps between requests *)
+(* State shared by every session / stream / reader / query of the process (Gen/GenFetch.v: gen_transport_kept, extracted from
+   requests_retry_session, HttpRangeStream.__init__ / close and the module level of laspy/copc.py).  TkNothing - the source: a
+   fresh session with a stock adapter per stream.  TkSlots - not in the source, here for the contrast and the refutation: a pool of
+   `capacity` slots, one taken for the duration of a send; `release_when_send_raises = false`: the slot is given back only when
+   send RETURNS.  slot_send: the free slots after one send (raises: it ends in an exception), None = no slot is free and nobody
+   will ever free one - the send, its worker thread and the query that waits for it block for ever. *)
+Definition slots_init (tk : transport_kept) : nat := match tk with TkNothing => O | TkSlots c _ => c end.
+Definition slot_send (tk : transport_kept) (free : nat) (raises : bool) : option nat :=
+  match tk with
+  | TkNothing => Some free
+  | TkSlots _ rel => match free with
+                     | O => None
+                     | S f => if raises && negb rel then Some f else Some free
+                     end
+  end.
+(* the sends of a history of queries, in the order they end *)
+Fixpoint slot_history (tk : transport_kept) (free : nat) (sends : list bool) : option nat :=
+  match sends with
+  | [] => Some free
+  | b :: t => match slot_send tk free b with None => None | Some f => slot_history tk f t end
+  end.
